@@ -78,6 +78,27 @@ func runC20(c *Ctx) {
 				c.info("C20-R2", fnKey(fn)+"#loop->"+fnKey(staticFn(evictCall)), evictCall.Pos(), "loop iterates over a finite snapshot (range); progress is structural")
 				continue
 			}
+			// an event loop (the janitor: `for { select { case <-ticker.C: ...; case <-done: return } }`) waits for an
+			// event before every eviction: it does not spin, whatever the list holds
+			waits := false
+			for b := range lp.body {
+				for _, ins := range b.Instrs {
+					blocking := false
+					switch x := ins.(type) {
+					case *ssa.Select:
+						blocking = x.Blocking
+					case *ssa.UnOp:
+						blocking = x.Op == token.ARROW
+					}
+					if blocking && b.Dominates(evictCall.Block()) {
+						waits = true
+					}
+				}
+			}
+			if waits {
+				c.info("C20-R2", fnKey(fn)+"#loop->"+fnKey(staticFn(evictCall)), evictCall.Pos(), "event loop: every eviction is preceded by a blocking receive; progress is not at stake")
+				continue
+			}
 			ok := false
 			for b := range lp.body {
 				iff, isIf := b.Instrs[len(b.Instrs)-1].(*ssa.If)
@@ -219,7 +240,46 @@ func runC20(c *Ctx) {
 				oks = append(oks, extractOf(lk, 1)...)
 			}
 		})
+		// a helper that is handed the list element and the new entry and does the replacing
+		helperDoes := func(x ssa.Instruction, what string) bool {
+			cl, ok := x.(*ssa.Call)
+			if !ok {
+				return false
+			}
+			h := staticFn(cl)
+			if h == nil || h.Pkg != fn.Pkg || len(h.Blocks) == 0 {
+				return false
+			}
+			switch what {
+			case "installs":
+				okInst := false
+				eachInstr(h, func(_ *ssa.BasicBlock, _ int, y ssa.Instruction) {
+					st, ok := y.(*ssa.Store)
+					if !ok {
+						return
+					}
+					if nt, f, ok := fieldOf(st.Addr); ok && nt != nil && nt.Obj().Name() == "Element" && f == "Value" {
+						for i, p := range h.Params {
+							if derivesFrom(st.Val, func(v ssa.Value) bool { return v == ssa.Value(p) }) && i < len(cl.Call.Args) && derivesFrom(cl.Call.Args[i], freshEntry) {
+								okInst = true
+							}
+						}
+					}
+				})
+				return okInst
+			case "bumps":
+				q := &pathQuery{fn: h, target: isReturn, stop: func(y ssa.Instruction) bool {
+					return isCallTo(y, "container/list.List.MoveToFront", "container/list.List.PushFront")
+				}}
+				hit, _ := q.fromEntry()
+				return hit == nil
+			}
+			return false
+		}
 		installs := func(x ssa.Instruction) bool {
+			if helperDoes(x, "installs") {
+				return true
+			}
 			st, ok := x.(*ssa.Store)
 			if !ok {
 				return false
@@ -258,7 +318,7 @@ func runC20(c *Ctx) {
 						// a write is a use: the overwritten key becomes the most recently used on every path to a success
 						// return (moved to the front, or removed and pushed to the front again)
 						bumps := func(x ssa.Instruction) bool {
-							return isCallTo(x, "container/list.List.MoveToFront", "container/list.List.PushFront")
+							return isCallTo(x, "container/list.List.MoveToFront", "container/list.List.PushFront") || helperDoes(x, "bumps")
 						}
 						q2 := &pathQuery{fn: fn, stop: bumps, target: func(x ssa.Instruction) bool {
 							r, ok := x.(*ssa.Return)
